@@ -680,9 +680,12 @@ class Progress(JupyterMixin, RenderHook):
             if not self._started:
                 return
             self._started = False
+            # take the thread while holding the lock: a concurrent start() may install a new one
+            refresh_thread = self._refresh_thread
+            self._refresh_thread = None
             try:
-                if self.auto_refresh and self._refresh_thread is not None:
-                    self._refresh_thread.stop()
+                if self.auto_refresh and refresh_thread is not None:
+                    refresh_thread.stop()
                 self.refresh()
                 if self.console.is_terminal:
                     self.console.line()
@@ -690,9 +693,8 @@ class Progress(JupyterMixin, RenderHook):
                 self.console.show_cursor(True)
                 self._disable_redirect_io()
                 self.console.pop_render_hook()
-        if self._refresh_thread is not None:
-            self._refresh_thread.join()
-            self._refresh_thread = None
+        if refresh_thread is not None:
+            refresh_thread.join()
         if self.transient:
             self.console.control(self._live_render.restore_cursor())
         if self.ipy_widget is not None and self.transient:  # pragma: no cover
